@@ -28,6 +28,27 @@ type Case struct {
 	GroupBy  []string
 	Schedule []int
 	Open     []fix.OpenCfg
+	// Edits[i], applied by the CALLER to the Query value in place before
+	// execution i (i>=1): the Query then simply is another query, and must
+	// behave like a freshly constructed equal one.
+	Edits []Edit
+}
+
+// Edit kinds.
+const (
+	ENone        = iota
+	EGroupBy     // q.GroupBy[Pos] = Col          (same length, same backing array)
+	EOperand     // root AND/OR: Exprs[Pos] = New (same operand count)
+	ELeafValue   // root is a leaf: Value = Val
+	EGroupByTail // q.GroupBy = append(q.GroupBy[:0], rotated...)   (same length)
+)
+
+type Edit struct {
+	Kind int
+	Pos  int
+	Col  string
+	Val  string
+	New  model.Expr
 }
 
 func (c *Case) Summary() string {
@@ -36,6 +57,18 @@ func (c *Case) Summary() string {
 		fmt.Fprintf(&b, "index%d(%s)=%s ", i, c.Open[i], c.Data[i].Summary())
 	}
 	fmt.Fprintf(&b, "query %s GROUP BY %+q schedule %v", c.Expr.String(), c.GroupBy, c.Schedule)
+	for i, e := range c.Edits {
+		switch e.Kind {
+		case EGroupBy:
+			fmt.Fprintf(&b, " before#%d:GroupBy[%d]=%q", i, e.Pos, e.Col)
+		case EOperand:
+			fmt.Fprintf(&b, " before#%d:operand[%d]=%s", i, e.Pos, e.New.String())
+		case ELeafValue:
+			fmt.Fprintf(&b, " before#%d:leaf.Value=%+q", i, e.Val)
+		case EGroupByTail:
+			fmt.Fprintf(&b, " before#%d:GroupBy-rotated-in-place", i)
+		}
+	}
 	return b.String()
 }
 
@@ -63,12 +96,51 @@ func oracle(c *Case) error {
 		datas = append(datas, model.NewData(rows))
 	}
 	q := fix.NewQuery(c.Expr, c.GroupBy)
-	snapExpr := fix.ToUpdog(c.Expr)
-	snapGB := append([]string(nil), c.GroupBy...)
+	curExpr := c.Expr
+	curGB := append([]string(nil), c.GroupBy...)
+	snapExpr := fix.ToUpdog(curExpr)
+	snapGB := append([]string(nil), curGB...)
 	for step, k := range c.Schedule {
+		if step < len(c.Edits) && step > 0 {
+			// the caller edits its Query value in place; the model follows
+			switch e := c.Edits[step]; e.Kind {
+			case EGroupBy:
+				if len(q.GroupBy) > 0 {
+					p := e.Pos % len(q.GroupBy)
+					q.GroupBy[p] = e.Col
+					curGB[p] = e.Col
+				}
+			case EGroupByTail:
+				if len(q.GroupBy) > 1 {
+					rot := append(append([]string(nil), curGB[1:]...), curGB[0])
+					q.GroupBy = append(q.GroupBy[:0], rot...)
+					curGB = rot
+				}
+			case EOperand:
+				if (curExpr.Op == model.OpAnd || curExpr.Op == model.OpOr) && len(curExpr.Subs) > 0 {
+					p := e.Pos % len(curExpr.Subs)
+					subs := append([]model.Expr(nil), curExpr.Subs...)
+					subs[p] = e.New
+					curExpr = model.Expr{Op: curExpr.Op, Subs: subs}
+					switch x := q.Expr.(type) {
+					case *updog.ExprAnd:
+						x.Exprs[p] = fix.ToUpdog(e.New)
+					case *updog.ExprOr:
+						x.Exprs[p] = fix.ToUpdog(e.New)
+					}
+				}
+			case ELeafValue:
+				if curExpr.Op == model.OpEq {
+					curExpr.Val = e.Val
+					q.Expr.(*updog.ExprEqual).Value = e.Val
+				}
+			}
+			snapExpr = fix.ToUpdog(curExpr)
+			snapGB = append([]string(nil), curGB...)
+		}
 		res, err := fix.Exec(idxs[k], q)
 		// the same query value must mean what a fresh equal query means
-		fres, ferr := fix.Exec(idxs[k], fix.NewQuery(c.Expr, c.GroupBy))
+		fres, ferr := fix.Exec(idxs[k], fix.NewQuery(curExpr, curGB))
 		if fix.IsPanic(err) {
 			return fmt.Errorf("execution %d on index %d: %v", step, k, err)
 		}
@@ -78,7 +150,7 @@ func oracle(c *Case) error {
 		if err == nil && !reflect.DeepEqual(fix.FromResult(res), fix.FromResult(fres)) {
 			return fmt.Errorf("execution %d on index %d: reused query returned %s, a fresh equal query returned %s", step, k, short(res), short(fres))
 		}
-		if cerr := fix.CompareOutcome(datas[k], c.Expr, c.GroupBy, res, err); cerr != nil {
+		if cerr := fix.CompareOutcome(datas[k], curExpr, curGB, res, err); cerr != nil {
 			return fmt.Errorf("execution %d on index %d: %v", step, k, cerr)
 		}
 		if !reflect.DeepEqual(q.Expr, snapExpr) {
@@ -149,6 +221,23 @@ func drawCase(t *rapid.T) *Case {
 	k := rapid.IntRange(2, 6).Draw(t, "nexec")
 	for i := 0; i < k; i++ {
 		c.Schedule = append(c.Schedule, rapid.IntRange(0, n-1).Draw(t, "which"))
+	}
+	if rapid.IntRange(0, 2).Draw(t, "edits") == 0 {
+		c.Edits = make([]Edit, k)
+		for i := 1; i < k; i++ {
+			if rapid.Bool().Draw(t, "edit?") {
+				continue
+			}
+			e := Edit{Kind: rapid.IntRange(EGroupBy, EGroupByTail).Draw(t, "editkind"), Pos: rapid.IntRange(0, 7).Draw(t, "editpos")}
+			if len(pool.Cols) > 0 {
+				e.Col = rapid.SampledFrom(pool.Cols).Draw(t, "editcol")
+			} else {
+				e.Col = "nope"
+			}
+			e.Val = gen.Value().Draw(t, "editval")
+			e.New = pool.Expr(t, gen.ExprOpts{MaxDepth: 2})
+			c.Edits[i] = e
+		}
 	}
 	return c
 }
